@@ -87,7 +87,7 @@ def check(scratch, a, t0):
     findings = []
     accepted = 0
     outside = 0
-    timeout_ms = 20000 if a.tier == "quick" else 120000
+    timeout_ms = 60000 if a.tier == "quick" else 180000
 
     def obligations(static_name, arm_static, level, op, kinds, k_static):
         """(a) and (b) for one accepted cell"""
